@@ -147,6 +147,34 @@ def cell_lemma(maker_name, wtype, empty, fresh_ptype, table, documented_ptype=No
         got = key(ctx, ctx.world.interp.getattr(ctx, res, 'ptype'))
         ctx.oblige('C08::cell[%s]' % label, got == want, info=dict(wit, expected=want, observed=got))
         ctx.oblige('C08::result_type_is_a_wavefront_type[%s]' % label, got in WTYPES)
+
+    def native_replay(obname, model):
+        """The same cell on the real classes: prints {"violated": bool, "observed": ...}."""
+        ctor = {'Plane': 'lentil.Plane()', 'Pupil': 'lentil.Pupil(focal_length=10.0)', 'Image': 'lentil.Image()',
+                'Tilt': 'lentil.Tilt(x=1e-6, y=2e-6)', 'DispersiveTilt': 'lentil.DispersiveTilt(trace=[1.0, 0.0], dispersion=[1.0, 5e-7])',
+                'Grism': 'lentil.Grism(trace=[1.0, 0.0], dispersion=[1.0, 5e-7])', 'LensletArray': 'lentil.LensletArray()',
+                'Rotate': 'lentil.Rotate()', 'Flip': 'lentil.Flip()'}.get(maker_name)
+        if ctor is None:
+            ctor = "lentil.Plane(ptype=lentil.ptype('%s'))" % maker_name.split('=')[1].rstrip(')')
+        want = table[(documented_ptype or maker_name.split('=')[-1].rstrip(')'), wtype)] if (documented_ptype or '=' in maker_name) else None
+        if want is None and not (documented_ptype or '=' in maker_name):
+            return None
+        mk = "lentil.Wavefront.empty(600e-9, ptype=lentil.ptype('%s'))" % wtype if empty else "lentil.Wavefront(600e-9, ptype=lentil.ptype('%s'))" % wtype
+        return '\n'.join([
+            'import json, copy, warnings', 'warnings.simplefilter("ignore")', 'import lentil',
+            'w = %s' % mk,
+            'w._ptype = copy.deepcopy(w._ptype)' if fresh_ptype else 'pass',
+            'p = %s' % ctor,
+            'fl = w.focal_length',
+            'try:',
+            '    r = w * p',
+            '    obs = str(r.ptype)',
+            'except Exception as e:',
+            '    obs = "raises " + type(e).__name__',
+            'want = %r' % (want if want is not None else 'raises TypeError'),
+            'bad = obs != want or (obs.startswith("raises") and w.focal_length != fl)',
+            'print(json.dumps({"violated": bool(bad), "observed": obs, "documented": want}))'])
+    lemma.native_replay = native_replay
     return ('C08::' + label, lemma)
 
 
@@ -164,6 +192,20 @@ def propagate_lemma(wtype, fresh_ptype):
             return
         ctx.oblige('C08::%s' % label, want is not None and key(ctx, res) == want,
                    info={'expected': want, 'observed': key(ctx, res)})
+
+    def native_replay(obname, model):
+        want = {'pupil': 'image', 'image': 'pupil', 'none': 'raises TypeError'}[wtype]
+        return '\n'.join([
+            'import json, copy, warnings', 'warnings.simplefilter("ignore")', 'import lentil, lentil.propagate',
+            "p = lentil.ptype('%s')" % wtype,
+            'p = copy.deepcopy(p)' if fresh_ptype else 'pass',
+            'try:',
+            '    obs = str(lentil.propagate._propagate_ptype(p))',
+            'except Exception as e:',
+            '    obs = "raises " + type(e).__name__',
+            'want = %r' % want,
+            'print(json.dumps({"violated": obs != want, "observed": obs, "documented": want}))'])
+    lemma.native_replay = native_replay
     return ('C08::' + label, lemma)
 
 
